@@ -644,7 +644,11 @@ class Exec:
                 if m is NotImplemented:
                     raise OutOfSubset('inlined %s returns values of different shape (%s / %s)' % (fname, v.kind, val.kind))
             val = m
-        # the disjunction of return conditions holds on the continuing path
+        # the disjunction of return conditions holds on the continuing path (facts assumed inside the callee on its
+        # returning paths - e.g. "the comprehension completed" - would otherwise be lost to the caller)
+        conds = [simplify(c) for c, _ in rets]
+        if not any(is_true(c) for c in conds):
+            st.assume(Or(*conds) if len(conds) > 1 else conds[0])
         return val
 
     # ------------------------------------------------------------------ statements
